@@ -421,7 +421,7 @@ impl Check for C04 {
     fn cases(&self, tier: Tier) -> u64 {
         match tier {
             Tier::Quick => 8000,
-            Tier::Thorough => 300_000,
+            Tier::Thorough => 150_000,
         }
     }
     fn run_case(&self, ctx: &mut CaseCtx) {
